@@ -120,8 +120,12 @@ class Harness(explore.BaseHarness):
 
 
 CONFIGS = {
-    'quick': [{'retry': 30, 'idle_hold': 30}, {'retry': 10, 'idle_hold': 5}],
-    'thorough': [{'retry': r, 'idle_hold': i} for r in (10, 30, 40) for i in (5, 30)],
+    # the last configuration of each tier: TCP-MD5 configured and the kernel refusing the socket option (setsockopt raises
+    # inside connect(), after connectTCP has already started the attempt)
+    'quick': [{'retry': 30, 'idle_hold': 30}, {'retry': 10, 'idle_hold': 5}, {'retry': 10, 'idle_hold': 5, 'md5': 'secret', 'setsockopt_fails': True}],
+    'thorough': [{'retry': r, 'idle_hold': i} for r in (10, 30, 40) for i in (5, 30)] + [
+        {'retry': 10, 'idle_hold': 5, 'md5': 'secret', 'setsockopt_fails': True}, {'retry': 30, 'idle_hold': 30, 'md5': 'secret', 'setsockopt_fails': True},
+        {'retry': 10, 'idle_hold': 5, 'md5': 'secret'}],
 }
 FROM_EST = {'quick': 6, 'thorough': 8}
 DEPTH = {'quick': 7, 'thorough': 9}
